@@ -27,6 +27,8 @@ pub enum SourceFormatError {
     },
     #[error("cannot format source `{}`: {message}", path.display())]
     Parse { path: PathBuf, message: String },
+    #[error("cannot format source `{}`: no layout keeps its block constructs at the start of a line", path.display())]
+    Layout { path: PathBuf },
     #[error("cannot write formatted source `{}`: {source}", path.display())]
     Write {
         path: PathBuf,
@@ -76,6 +78,8 @@ impl SourceFormatter {
                 path: path.to_path_buf(),
                 message: ParseError { error, file_info: &file_info }.to_string(),
             })?;
-        Ok(PrettyFormatter::with_source(&parser.arena, &parser.spans, source).render_unit(unit))
+        PrettyFormatter::with_source(&parser.arena, &parser.spans, source)
+            .try_render_unit(unit)
+            .map_err(|_| SourceFormatError::Layout { path: path.to_path_buf() })
     }
 }
